@@ -7,6 +7,11 @@ from tempest import tools
 warnings.simplefilter("ignore")
 
 
+def c_ok(x, wn):
+    xc = x - wn @ x
+    return np.linalg.cond(xc.T @ (xc * wn[:, None])) <= 1e3 and len(x) >= 3 * x.shape[1] + 5
+
+
 def main():
     p = json.load(open(sys.argv[1]))
     rng = np.random.RandomState(int(p.get("seed", 0)))
@@ -25,6 +30,17 @@ def main():
                 if w is not None and not np.isclose(tools.volume_variation(x, 37.5 * w), v, rtol=1e-9, atol=1e-12):
                     print(json.dumps({"reproduced": True, "tried": tried, "detail": "not invariant under rescaling of the weights", "input": {"d": d, "n": n}}))
                     return
+                if w is not None:
+                    # rescaling factors next to one (weights normalised in lower precision, read back from text): same metric, also far from the origin
+                    wn = w / w.sum()
+                    for fac in (1 + 4e-6, 1 - 7e-6, 1 + 1e-9):
+                        for off in (0.0, 1e3, 1e6):
+                            tried += 1
+                            a, b = tools.volume_variation(x + off, wn), tools.volume_variation(x + off, wn * fac)
+                            if not np.isclose(a, b, rtol=1e-6 + 1e-9 * (1 + off) ** 2 / max(x.var(), 1e-12) * 2.3e-7, atol=1e-10) and c_ok(x, wn):
+                                print(json.dumps({"reproduced": True, "tried": tried, "detail": f"not invariant under rescaling the weights by {fac!r} (samples centred at {off:g}): {a!r} -> {b!r}",
+                                                  "input": {"d": d, "n": n, "factor": fac, "offset": off}}))
+                                return
                 if n < 3 * d + 5:
                     continue
                 # affine invariance is stated for maps of condition number up to 1e6: the samples themselves must not add to it,
